@@ -194,9 +194,21 @@ func c12Run(t *testing.T, sc Scenario, res *Result) {
 			dir = "le"
 		}
 		want = fmt.Sprintf("%s %s", k.name, sc.S)
+		// the usual shape of a property: draw all inputs, then assert - other values are drawn before and/or after the
+		// deciding integer (they do not influence the outcome)
+		extra := int(mix(sc.Seed, 0xe7a) % 4)
+		res.inc(fmt.Sprintf("threshold_extra_draws:%d", extra))
 		body = func(x *X) {
+			if extra&1 != 0 {
+				x.draw(rapid.Bool().AsAny(), "before")
+				x.draw(rapid.StringN(0, 3, -1).AsAny(), "before2")
+			}
 			v := x.draw(k.gen, "v")
 			final = v
+			if extra&2 != 0 {
+				x.draw(rapid.SliceOf(rapid.Byte()).AsAny(), "after")
+				x.draw(rapid.Int16().AsAny(), "after2")
+			}
 			rv := reflect.ValueOf(v)
 			switch dir {
 			case "uge":
